@@ -315,6 +315,47 @@ def handleArc3 (args : List String) : Option String :=
       | some o => some s!"ok {showVec o.centre} {if o.exterior then 1 else 0} {o.cos.toBits} {o.length.toBits}"
   | _ => none
 
+/-- Validator of the `acos` step of `arc_length_3point` with a witness (round 6).  `(cθ, sθ)` is a rational point claimed to be
+    `(cos, sin)` of `length / radius` for the length the implementation returned.  Checked exactly, on the model's exact
+    centre and radius vectors: the point is on the unit circle, `r1·r3 = |r1|²·cθ` (the included angle has that cosine), and the
+    angle is above π (`sθ < 0`) exactly when the code's side test says "exterior".  These are the hypotheses under which
+    `T_C08_arc3_length_real` states `length = radius × angle` over ℝ.  `none` = all clauses hold. -/
+def arc3AngleCheck (pS pB pE : V) (cθ sθ eps : Rat) : Option String :=
+  if absR (arc3Denom pS pB pE) < mkRat 1 (10 ^ 18) then some "reject"
+  else
+    let centre := arc3Centre pS pB pE
+    let r1 := sub pS centre
+    let r2 := sub pB centre
+    let r3 := sub pE centre
+    if absR (cθ * cθ + sθ * sθ - 1) > eps then some "unit"
+    else if absR (dot r1 r3 - nsq r1 * cθ) > eps * nsq r1 then some "cosine"
+    else if decide (arc3SideTest r1 r2 r3 < 0) != decide (sθ < 0) then some "side"
+    else none
+
+/-- `c08.varc3 pS pB pE cθ sθ eps` → `ok` | `fail <clause>` -/
+def handleVarc3 (args : List String) : Option String :=
+  match args with
+  | [pS, pB, pE, c, s, eps] => do
+      let pS ← parseVec? pS; let pB ← parseVec? pB; let pE ← parseVec? pE
+      let c ← parseRat? c; let s ← parseRat? s; let eps ← parseRat? eps
+      some (match arc3AngleCheck pS pB pE c s eps with | none => "ok" | some cl => "fail " ++ cl)
+  | _ => none
+
+/-- `c08.thetalen θ p1 p2 axis c s eps` → `ok <radius witness × |θ|>` | `reject` | `badwit <which>`:
+    the length `radius × sector angle` of an Angle arc from the model's centre (`T_C08_specs_real`: the radius witness is the
+    circle's radius) -/
+def handleThetaLen (args : List String) : Option String :=
+  match args with
+  | [θ, p1, p2, a, c, s, eps] => do
+      let θ ← parseRat? θ; let p1 ← parseVec? p1; let p2 ← parseVec? p2; let a ← parseVec? a
+      let c ← parseRat? c; let s ← parseRat? s; let eps ← parseRat? eps
+      if thetaGuard θ && (s = 0 || absR (c * c + s * s - 1) > eps) then some "badwit cs"
+      else
+        match arcFromTheta p1 p2 a θ c s eps with
+        | .error e => some e
+        | .ok o => some s!"ok {showRat (sqrtQ (nsq (sub p1 o.centre)) * absR θ)}"
+  | _ => none
+
 /-- `c08.valid p1 p2 M` → `1` | `0` (ArcEdgeBase.is_valid for the third point `M`) -/
 def handleValid (args : List String) : Option String :=
   match args with
@@ -354,6 +395,8 @@ def handle (op : String) (args : List String) : Option String :=
   | "c08.theta" => handleTheta args
   | "c08.origin" => handleOrigin args
   | "c08.arc3" => handleArc3 args
+  | "c08.varc3" => handleVarc3 args
+  | "c08.thetalen" => handleThetaLen args
   | "c08.vmid" => handleVmid args
   | "c08.valid" => handleValid args
   | "c08.poly" => handlePoly args
